@@ -526,6 +526,10 @@ public:
         );
     }
 
+    void cancel_pending_pubrel(uint16_t packet_id) {
+        _replies.cancel_pending_pubrel(packet_id);
+    }
+
     template <typename CompletionToken>
     decltype(auto) async_channel_receive(CompletionToken&& token) {
         return _rec_channel.async_receive(std::forward<CompletionToken>(token));
